@@ -14,6 +14,7 @@ from jsonpath_rfc9535.function_extensions.filter_function import ExpressionType
 from jsonpath_rfc9535.function_extensions.filter_function import FilterFunction
 
 from .exceptions import JSONPathTypeError
+from .node import JSONPathNode
 from .node import JSONPathNodeList
 from .serialize import canonical_string
 
@@ -289,7 +290,16 @@ class RelativeFilterQuery(FilterQuery):
         """Evaluate the filter expression in the given _context_."""
         if not isinstance(context.current, (list, dict)):
             if self.query.empty():
-                return context.current
+                # `@` selects the current node, whatever its value is.
+                return JSONPathNodeList(
+                    [
+                        JSONPathNode(
+                            value=context.current,
+                            location=(),
+                            root=context.root,
+                        )
+                    ]
+                )
             return JSONPathNodeList()
 
         return JSONPathNodeList(self.query.find(context.current))
